@@ -112,6 +112,7 @@ class VC:
         self.used_contracts = set()
         self.external_models = set()
         self.havoc_calls = set()
+        self.waived_panics = []
         self.type_ids = {}
         self.ufuns = {}
         self.notes = []
